@@ -6,7 +6,9 @@ from typing import Dict, List, Optional
 
 from harness.lib.core import VERIF, Ctx, lean_lock, run_driver, shrink_ops
 from harness.extract import software as x_sw
+from harness.extract import software_recv as x_recv
 from harness.rigs import software as rig
+from harness.rigs import software_recv as wrig
 
 MANIFEST = {
     "text": "Lean 4 proof about an executable model of Service / Application / Software (lifecycle methods, request validators, "
@@ -32,8 +34,9 @@ MANIFEST = {
     "technique": "Lean 4 theorems over executable lifecycle and registry models; models tied by regenerated tables and a differential rig",
     "design_ref": "5/C13",
 }
-MODULES = ["PrimaiteModel.Props.C13", "PrimaiteModel.Lemmas.RegistriesRep"]
+MODULES = ["PrimaiteModel.Props.C13", "PrimaiteModel.Lemmas.RegistriesRep", "PrimaiteModel.Props.C13Recv"]
 EXE = "drv_c13"
+EXE_W = "drv_c13recv"   # two nodes with class data and a transport (receive path, DNS / NTP payload processing)
 
 
 # ------------------------------------------------------------------------------------------------------------ helpers
@@ -140,12 +143,90 @@ def _check_case(ctx: Ctx, name: str, case: dict, res: dict, model: List[str], gu
     return False
 
 
+def _check_world_case(ctx: Ctx, name: str, case: dict, res: dict, model: List[str], guards: Dict[str, bool]) -> bool:
+    ctx.cov["traces_validated_against_impl"] += 1
+    j = _diff(res, model)
+    answers = [(q, m) for q, m in zip(res["lines"], model) if not q.endswith("dump")]
+    traffic = [m for _, m in answers if "|" in m]
+    ctx.case({"world": [q for q, _ in answers]}, bool(traffic))
+    ctx.count("wfocus:" + case.get("focus", "?"))
+    for q, m in answers:
+        w = q.split()
+        key = w[1] if w[0] in ("A", "B") else w[0]
+        ctx.count("wop:" + key)
+        if m == "bad-op":
+            raise RuntimeError(f"driver rejected line {q!r}")
+        if "!overflow" in m or "!tick-mismatch" in m:
+            ctx.count("wmodel:" + ("overflow" if "!overflow" in m else "tick-mismatch"))
+        if key in ("lookup", "cache"):
+            ctx.count(f"w:{key}:{m.split('|')[0].strip()}")
+        if key == "inject":
+            ctx.count("w:inject:" + m.split()[0])
+        if key == "dnslookup":
+            ctx.count("w:dnslookup:" + ("none" if m == "-" else "address"))
+        if "|" in m:
+            for r in m.split("|")[1].split():
+                if r.startswith("!"):
+                    continue
+                _, h, ret = r.split(":")
+                ctx.count("wrecv:" + ("handled" if h == "1" else "not-running") + ":" + {"t": "True", "f": "False", "n": "None", "-": "unmodelled-class"}.get(ret, ret))
+            ctx.count("wcascade:" + str(min(len([r for r in m.split("|")[1].split() if not r.startswith("!")]), 5)))
+    seen = set()
+    for (i, kind, detail, extra) in res["oracle"]:
+        sig = {"kind": "not-running-software-acted", "cls": extra, "via": "world"} if kind == "payload-handled-while-not-running" \
+            else {"kind": kind, "via": "world"}
+        key = json.dumps(sig, sort_keys=True)
+        if key in seen:
+            continue
+        seen.add(key)
+        ctx.count("oracle:" + kind)
+        ctx.violation(sig, f"{kind} after op {i} of {name}: {detail}", {"world_case": case, "from": name, "op_index": i, "oracle": kind})
+    if j < 0:
+        return True
+
+    def fails(ops, case=case):
+        c = dict(case, ops=ops)
+        try:
+            r2 = wrig.run_world_case(c, guards)
+            return _diff(r2, run_driver(EXE_W, r2["lines"])) >= 0
+        except Exception:  # noqa
+            return False
+    small = dict(case, ops=shrink_ops(case["ops"], fails, budget=80))
+    res2 = wrig.run_world_case(small, guards)
+    model2 = run_driver(EXE_W, res2["lines"])
+    j2 = _diff(res2, model2)
+    if j2 < 0:
+        small, res2, model2, j2 = case, res, model, j
+    line = res2["lines"][j2] if j2 < len(res2["lines"]) else "?"
+    w = line.split()
+    dumpline = line.endswith("dump")
+    opw = (w[1] if w and w[0] in ("A", "B") and len(w) > 1 else (w[0] if w else "?"))
+    if dumpline:
+        prev = next((l for l in reversed(res2["lines"][:j2]) if not l.endswith("dump")), "?").split()
+        opw = prev[1] if prev and prev[0] in ("A", "B") and len(prev) > 1 else (prev[0] if prev else "?")
+    impl_ans = res2["impl"][j2] if j2 < len(res2["impl"]) else None
+    sig = {"kind": "model-vs-impl", "where": ("world-state:" + w[1]) if dumpline else "world-answer", "op": opw}
+    if isinstance(impl_ans, str) and impl_ans.startswith("raised"):
+        sig["raised"] = impl_ans.split(":", 1)[-1]
+    ctx.violation(sig, f"two-node world differs from the proved model at line {j2} ({line!r}): impl={impl_ans!r} "
+                       f"model={model2[j2] if j2 < len(model2) else None!r}",
+                  {"world_case": small, "lines": [l for l in res2["lines"] if not l.endswith("dump")], "first_diff_line": line,
+                   "impl": impl_ans, "model": model2[j2] if j2 < len(model2) else None, "from": name})
+    return False
+
+
 def replay(rec: dict) -> bool:
     r = rec["replay"]
     with lean_lock():
         from harness.lib.core import lake_build
-        lake_build([EXE])
+        lake_build([EXE, EXE_W])
     guards = _guards()
+    if "world_case" in r:
+        res = wrig.run_world_case(r["world_case"], guards)
+        model = run_driver(EXE_W, res["lines"])
+        if r.get("oracle"):
+            return not any(k == r["oracle"] for (_, k, _, _) in res["oracle"])
+        return _diff(res, model) < 0
     if "probe" in r:
         p = rig.guard_probe(r["probe"])
         return not _probe_handles_when_not_running(p)
@@ -165,7 +246,8 @@ def _probe_handles_when_not_running(p: dict) -> List[str]:
 def run(ctx: Ctx):
     with lean_lock():
         ctx.extract("Software", x_sw.emit)
-        ctx.prove(MODULES, exes=[EXE], clean=False, leanchecker=ctx.thorough)
+        ctx.extract("SoftwareRecv", x_recv.emit)
+        ctx.prove(MODULES, exes=[EXE, EXE_W], clean=False, leanchecker=ctx.thorough)
     guards = _guards()
     ctx.cov["rule"] = ("cases = (node power and durations, operation sequence over install/uninstall (API and request) of every shipped "
                        "class, the 10 service / 4 application requests, direct method calls, duration writes, ticks, power API and "
@@ -214,8 +296,13 @@ def run(ctx: Ctx):
 
     # -- traces: corpus first, then bounded-exhaustive lifecycle words, then seeded random
     cases = []
+    world_cases = []
     for f in sorted((VERIF / "corpus" / "C13").glob("*.json")):
-        cases.append(("corpus:" + f.name, json.loads(f.read_text())["case"]))
+        rec = json.loads(f.read_text())
+        if rec.get("world"):
+            world_cases.append(("corpus:" + f.name, rec["case"]))
+        else:
+            cases.append(("corpus:" + f.name, rec["case"]))
     # bounded-exhaustive: every word of the given length over {7 lifecycle requests, tick, shutdown, startup}
     if not ctx.thorough:
         plan = [("dns-client", 3, [(0, 0), (1, 2)], "computer"), ("terminal", 2, [(1, 1)], "router"), ("icmp", 2, [(0, 2)], "firewall")]
@@ -251,3 +338,26 @@ def run(ctx: Ctx):
                     ctx.sample({"case": name, "node": case["node"], "lines": [l for l in res["lines"] if l != "dump"][10:18],
                                 "answers": [m for q, m in zip(res["lines"], model) if q != "dump"][10:18]}, cap=3)
     ctx.oblige("rig:R-svc agrees on every trace", "correspondence", agree == len(cases), f"{len(cases) - agree} of {len(cases)} traces disagree")
+
+    # -- R-recv: two real hosts on a link vs the two-node model (receive path, DNS / NTP payload processing, transport)
+    wrng = ctx.rng.fork("world")
+    for k in range(ctx.scale(300, 6000)):
+        world_cases.append((f"wgen:{k}", wrig.gen_world_case(wrng, max_ops=ctx.scale(28, 45))))
+    wagree = 0
+    for c0 in range(0, len(world_cases), 1500):
+        chunk = world_cases[c0:c0 + 1500]
+        results, lines_all, bounds = [], [], []
+        for name, case in chunk:
+            res = wrig.run_world_case(case, guards)
+            bounds.append((len(lines_all), len(res["lines"])))
+            lines_all += res["lines"] + ["reset"]
+            results.append(res)
+        model_all = run_driver(EXE_W, lines_all, timeout=3000)
+        for (name, case), res, (st, ln) in zip(chunk, results, bounds):
+            if _check_world_case(ctx, name, case, res, model_all[st:st + ln], guards):
+                wagree += 1
+                if name.startswith("wgen:"):
+                    keep = [(q, m) for q, m in zip(res["lines"], model_all[st:st + ln]) if not q.endswith("dump") and "|" in m]
+                    ctx.sample({"case": name, "focus": case.get("focus"), "traffic": [f"{q} => {m}" for q, m in keep[:4]]}, cap=6)
+    ctx.oblige("rig:R-recv (two hosts, real receive of DNS/NTP classes, real transport) agrees on every trace", "correspondence",
+               wagree == len(world_cases), f"{len(world_cases) - wagree} of {len(world_cases)} traces disagree")
